@@ -6,6 +6,7 @@
      z     zck_reset_failed_chunks(target)
      c<k>  zck_copy_chunks(source k, target)
      m<k>  zck_find_matching_chunks(source k, target)
+     M<j><k> zck_find_matching_chunks(source j, source k)   (only the flags of source k change)
    After every op: return value, valid flags, pairing (tgt->src: '-' unset, '=' itself,
    <k>:<n> chunk n of source k), and the whole target file in hex.  At the end, per source,
    sha256/length of the file as it is on disk now.
@@ -94,6 +95,11 @@ int main(void) {
             case 'f': printf(" f=%d", zck_find_valid_chunks(tgt)); break;
             case 'z': zck_reset_failed_chunks(tgt); printf(" z=1"); break;
             case 'c': if(k < nsrc && src[k]) printf(" c%d=%d", k, zck_copy_chunks(src[k], tgt)); else printf(" c%d=nosrc", k); break;
+            case 'M': {   /* M<j><k>: zck_find_matching_chunks(source j, source k): sets flags on source k from the indexes alone */
+                int j = o[1] - '0', k2 = o[2] - '0';
+                if(j >= 0 && j < nsrc && k2 >= 0 && k2 < nsrc && src[j] && src[k2]) printf(" M%d%d=%d", j, k2, zck_find_matching_chunks(src[j], src[k2]));
+                else printf(" M%d%d=nosrc", j, k2);
+                break; }
             case 'm': if(k < nsrc && src[k]) printf(" m%d=%d", k, zck_find_matching_chunks(src[k], tgt)); else printf(" m%d=nosrc", k); break;
             default: printf(" ?=0");
             }
